@@ -19,7 +19,10 @@ impl Panicked {
     pub fn class(&self) -> String {
         let mut msg = String::new();
         let mut last_digit = false;
-        for c in self.message.chars().take(60) {
+        for c in self.message.chars() {
+            if msg.len() >= 28 {
+                break;
+            }
             if c.is_ascii_digit() {
                 if !last_digit {
                     msg.push('N');
@@ -30,7 +33,12 @@ impl Panicked {
                 last_digit = false;
             }
         }
-        format!("panic@{}:{}", self.location, msg)
+        // strip the toolchain hash from std locations
+        let loc = match self.location.find("/library/") {
+            Some(i) if self.location.starts_with("/rustc/") => format!("std{}", &self.location[i..]),
+            _ => self.location.clone(),
+        };
+        format!("panic@{}:{}", loc, msg)
     }
 }
 
